@@ -25,7 +25,7 @@
 #elif defined(VF_THOROUGH)
 #define NANY 20                             // c37_any: largest datagram
 #define RRMORE "\x01"                       // c37_rr: 4 symbolic RDATA octets
-#define NAMEBYTES "\x01\x01\x01\x01"        // c37_name: symbolic owner-name octets
+#define NAMEBYTES "\x01\x01\x01\x01\x01"    // c37_name: symbolic owner-name octets
 #define PTRBYTES "\x01\x01\x01\x01\x01"     // c37_ptr: symbolic RDATA octets
 #define LOOPMORE "\x01"
 #else
